@@ -616,7 +616,9 @@ func (c *Client) readResponse() error {
 		return fmt.Errorf("in %v: %v", token, err)
 	}
 
-	if !c.dec.ExpectCRLF() {
+	// The CRLF of a tagged response is consumed by readResponseTagged before the
+	// command is completed
+	if tag == "" && !c.dec.ExpectCRLF() {
 		return fmt.Errorf("in response: %v", c.dec.Err())
 	}
 
@@ -736,6 +738,12 @@ func (c *Client) readResponseTagged(tag, typ string) (startTLS *startTLSCommand,
 		}
 	default:
 		return nil, fmt.Errorf("in resp-cond-state: expected OK, NO or BAD status condition, but got %v", typ)
+	}
+
+	// Only report the command's status once its completion has been fully
+	// received
+	if !c.dec.ExpectCRLF() {
+		return nil, fmt.Errorf("in response: %v", c.dec.Err())
 	}
 
 	c.completeCommand(cmd, cmdErr)
